@@ -1,6 +1,7 @@
 import Liquid.Parse
 import Liquid.Eval
 import Liquid.TrimWriter
+import Liquid.MapOrder
 /-!
 # Compilation and rendering: model of `render/*.go` and `tags/*.go`
 
@@ -364,16 +365,19 @@ def mkPair (k v : GoVal) : GoVal := .slice .any [k, v]
 def rangeItems (a b : Int) : List GoVal :=
   if b < a then [] else (List.range (b - a + 1).toNat).map fun (i : Nat) => GoVal.int .int (a + (i : Int))
 
-/-- `makeIterator` (after the repairs of D9 and D15): the items a loop visits -/
+/-- `makeIterator` (after the repairs of D9 and D15): the items a loop visits. A map is visited in the
+    order of `values.SortedMapKeys` (`MapOrder.sortedMapEntries`: the entry list of the value is in no
+    particular order), an `IterationKeyedMap` in the order of `sort.Strings` of its keys. -/
 def loopItems : GoVal → Res Cause (List GoVal)
   | .range a b => if b - a > 100000 then .unmodelled "huge range" else .ok (rangeItems a b)
   | .nil => .ok []
-  | .keyedMap kvs => .ok (kvs.map fun kv => GoVal.str kv.1)           -- keys, sorted (the codec keeps them sorted)
+  | .keyedMap kvs => .ok ((MapOrder.sortedFields kvs).map fun kv => GoVal.str kv.1)   -- makeIterationKeyedMap: sort.Strings(keys)
   | .mapSlice kvs => .ok (kvs.map fun kv => mkPair kv.1 kv.2)
   | .slice _ xs => .ok xs
   | .array _ xs => .ok xs
   | .bytes s => .ok (s.map fun b => GoVal.int .u8 b.toNat)
-  | .map _ _ kvs => .ok (kvs.map fun kv => mkPair kv.1 kv.2)         -- sorted keys
+  | .map _ _ kvs =>                                                    -- for i, k := range values.SortedMapKeys(rv)
+    (MapOrder.sortedMapEntries kvs).bind fun es => .ok (es.map fun kv => mkPair kv.1 kv.2)
   | _ => .ok []
 
 def dotCycles : Bytes := [46, 99, 121, 99, 108, 101, 115]
